@@ -178,8 +178,12 @@ def install(w):
                    raises=[], modifies=[], assumed=True)
     w.contract(f"{VC}.ASTValidationContext.report_error", params={"error": "opaque"}, ensures=[],
                raises=["GraphQLError"], modifies=[], assumed=True)
+    # get_fragment looks the name up in the table {definition.name.value: definition} of the document's
+    # fragment definitions (built lazily by the context): what it finds is a definition of that name
     w.contract(f"{VC}.ASTValidationContext.get_fragment", params={"name": "str"},
-               returns="opt:ref:FragmentDefinitionNode", ensures=[], raises=[], modifies=[], assumed=True)
+               returns="opt:ref:FragmentDefinitionNode", ensures=[],
+               assumed_ensures=["result is None or (ns_universe(name) and same_str(result.name.value, name))"],
+               raises=[], modifies=[], assumed=True)
     w.contract(f"{VC}.ASTValidationContext.get_fragment_spreads", params={"node": "ref:SelectionSetNode"},
                returns=("list", "ref:FragmentSpreadNode"), ensures=[], raises=[], modifies=[], assumed=True)
     w.contract(f"{VC}.ASTValidationContext.get_recursively_referenced_fragments",
